@@ -241,6 +241,17 @@ Definition at_warning (ts : tstate) : bool :=
   | _ => false
   end.
 
+(* ---- the same configuration with every HandleWarning removed (statement of warnings_erasable) ---- *)
+Definition is_warn_op (o : op) : bool := match o with OWarn _ _ => true | _ => false end.
+Definition erase_prog (p : list op) : list op := filter (fun o => negb (is_warn_op o)) p.
+Definition erase_cfg (cfg : config) : config :=
+  {| parent := parent cfg; rep := rep cfg; progs := fun t => erase_prog (progs cfg t) |}.
+Definition is_warn_entry (e : entry) : bool := match e with LWarn => true | _ => false end.
+Definition erase_log (l : list entry) : list entry := filter (fun e => negb (is_warn_entry e)) l.
+Definition is_warn_call (c : rcall) : bool := match c with CWarn _ => true | _ => false end.
+Definition erase_rlog (l : list rcall) : list rcall := filter (fun c => negb (is_warn_call c)) l.
+
+
 (* ---- drivers used by the correspondence ---- *)
 
 (* run thread t until it has completed one more operation *)
